@@ -5,6 +5,7 @@ import tpcommon as T
 from engine import Op, set_mode
 
 PROP = "C04"
+QUICK_BOOST = 2
 LEAN_MODULES = ["IsoDT.Props.C04", "IsoDT.Props.C02q"]
 RULE = ("ordered pairs at a chosen instant distance (0 .. thousands of years, across year 0) in mixed "
         "representations / offsets / 24:00; non-trivial when a borrow (s, min, h or day) occurs or the "
@@ -30,6 +31,10 @@ class SubTP(Op):
             m = gens.mode(rng)
             a, b = T.gen_pair(rng, m)
             yield (m, a, b)
+        for _ in range(n // 4):
+            m = gens.mode(rng)
+            p, q, _d = T.gen_year_edge_pair(rng, m)
+            yield (m, q, p) if rng.random() < 0.5 else (m, p, q)
         for m in oracle.MODES:      # across year 0 and far
             for ya, yb in [(-1, 1), (0, 1), (-400, 400), (-5000, 5000), (1, 9999), (2000, -2000)]:
                 yield (m, ("c", ya, 12, 30, 23, 59, 59, 0, 0), ("o", yb, 1, 0, 0, 0, 0, 5, 45))
